@@ -39,7 +39,8 @@
 EXTENDS Integers, Sequences, FiniteSets, TLC, Functions, FiniteSetsExt, SequencesExt, Json
 
 CONSTANTS NC,          \* number of conditions (3 or 4 in the exhaustive runs)
-          Vecs,        \* the set of RDM vectors the stacks are drawn from
+          Vecs,        \* the set of RDM vectors the first stack is drawn from
+          VecsB,       \* ... and the second stack (= Vecs in the exhaustive runs)
           MoveVecs,    \* moves are explored from stacks drawn from this subset
           Shapes,      \* set of <<n1, n2>> : sizes of the two stacks
           Methods,     \* subset of AllMethods
@@ -49,6 +50,7 @@ CONSTANTS NC,          \* number of conditions (3 or 4 in the exhaustive runs)
           Scales,      \* positive integer factors
           Affines,     \* set of <<c, d>>, c > 0 : x |-> c*x + d
           Configs,     \* point configurations (sequences of NC points) for Bures
+          MoveConfigs, \* moves of the Bures runs are explored from these configurations
           EmitMod,     \* emit one "out" state in EmitMod
           MoveEmitMod  \* emit one "moved" state in MoveEmitMod
 
@@ -164,7 +166,7 @@ Result(m, A, B, PA, PB) ==
   ELSE [i \in 1..Len(A) |-> [j \in 1..Len(B) |-> Stat(m, A[i], B[j])]]
 
 \* the generator constraint: inputs on which the measure is 0/0 are excluded (and counted by the harness)
-AdmVec(m, x) == CASE m \in {"cosine", "cosine_cov", "bures", "bures_metric"} -> \E k \in 1..Len(x) : x[k] # 0
+AdmVec(m, x) == CASE m \in {"cosine", "cosine_cov", "bures", "bures_metric"} -> {k \in 1..Len(x) : x[k] # 0} # {}
                   [] m \in {"corr", "corr_cov", "spearman", "kendall"} -> ~IsConst(x)
                   [] OTHER -> TRUE
 AdmStack(m, A) == \A i \in 1..Len(A) : AdmVec(m, A[i])
@@ -195,7 +197,7 @@ Init == /\ method \in Methods
                 /\ a = [i \in 1..Len(pa) |-> RdmOf(pa[i])]
                 /\ b = [i \in 1..Len(pb) |-> RdmOf(pb[i])]
            ELSE /\ pa = <<>> /\ pb = <<>>
-                /\ \E sh \in Shapes : a \in [1..sh[1] -> Vecs] /\ b \in [1..sh[2] -> Vecs]
+                /\ \E sh \in Shapes : a \in [1..sh[1] -> Vecs] /\ b \in [1..sh[2] -> VecsB]
         /\ AdmStack(method, a) /\ AdmStack(method, b)
         /\ sid \in (IF method \in CovMethods THEN 1..Len(Sigmas) ELSE {0})
         /\ sigma = IF sid = 0 THEN NoSigma ELSE Sigmas[sid]
@@ -206,7 +208,10 @@ Compute == /\ pc = "in"
            /\ pc' = "out"
            /\ UNCHANGED <<a, b, pa, pb, method, sid, sigma, mv>>
 
-Movable == /\ pc = "out" /\ \A i \in 1..Len(a) : a[i] \in MoveVecs /\ \A j \in 1..Len(b) : b[j] \in MoveVecs
+Movable == /\ pc = "out"
+           /\ IF method \in BuresMethods
+              THEN (\A i \in 1..Len(pa) : pa[i] \in MoveConfigs) /\ (\A j \in 1..Len(pb) : pb[j] \in MoveConfigs)
+              ELSE (\A i \in 1..Len(a) : a[i] \in MoveVecs) /\ (\A j \in 1..Len(b) : b[j] \in MoveVecs)
 Moved(A, B, PA, PB, s, m) == /\ a' = A /\ b' = B /\ pa' = PA /\ pb' = PB /\ sigma' = s /\ mv' = m
                              /\ res' = Result(method, A, B, PA, PB) /\ pc' = "moved"
                              /\ UNCHANGED <<method, sid>>
